@@ -92,6 +92,20 @@ def octets_fixed_default(m, where, resolve):
     return t.kind == 'octets' and t.lo == t.hi
 
 
+def octets_default_name_clash(t, where, resolve):
+    """Two OCTET STRING DEFAULT members with the same (canonical) name inside
+    one type assignment (references are separate functions)."""
+    if where != 'type' or t.kind not in ('seq', 'seqof', 'choice'):
+        return False
+    names = []
+    for x in T.subtypes(t):
+        if x.kind == 'seq':
+            for m in x.members:
+                if m.has_default and resolve(m.ty).kind == 'octets':
+                    names.append(T_canon(m.name))
+    return len(names) != len(set(names))
+
+
 def T_canon(name):
     import re
     return re.sub(r'[^a-zA-Z0-9]', '_', name)
@@ -103,6 +117,7 @@ REGIONS = {
     'enum-hyphen-mapping': enum_hyphen_mapping,
     'enum-default-hyphen': enum_default_hyphen,
     'octets-fixed-default': octets_fixed_default,
+    'octets-default-name-clash': octets_default_name_clash,
     'size-above-64k': size_above_64k,
     'named-bits-alignment': named_bits_alignment,
     'bits-default-invalid-c': bits_default,
